@@ -177,19 +177,20 @@ pub fn check_script(shell: &str, command: &str, script: &str, d: &DFA) -> Result
             *e = e.intersection(&ids).copied().collect();
         }
     }
-    // resolve by comparing the within-word tables themselves
-    let mut assigned: BTreeMap<String, usize> = BTreeMap::new();
-    let mut used: BTreeSet<usize> = BTreeSet::new();
+    // resolve by comparing the within-word tables themselves: ok[key] = the candidate ids whose tables
+    // describe that automaton; then a maximum bipartite matching (a greedy choice lets one of two automata
+    // with identical tables take the only candidate of the other)
     let no_sub = |_: &str| -> Option<usize> { None };
-    for (key, ids) in &cand {
-        let sub = d.subdfas.verif_lookup(subdfas[key]);
+    let keys: Vec<&String> = cand.keys().collect();
+    let mut ok: Vec<Vec<usize>> = vec![];
+    let mut lasts: Vec<String> = vec![];
+    for key in &keys {
+        let ids = &cand[*key];
+        let sub = d.subdfas.verif_lookup(subdfas[*key]);
         let (want, start) = edges_of_dfa(sub, shell, &no_sub)?;
         let mut last = String::new();
-        let mut found = None;
+        let mut good = vec![];
         for id in ids {
-            if used.contains(id) {
-                continue;
-            }
             let Some(t) = s.subwords.get(id) else {
                 last = format!("within-word function {id} is not defined");
                 continue;
@@ -206,19 +207,38 @@ pub fn check_script(shell: &str, command: &str, script: &str, d: &DFA) -> Result
                         last = format!("within-word tables #{id}: literal list {:?} differs from the automaton's literals {:?}", lits, used_lits);
                         continue;
                     }
-                    found = Some(*id);
-                    break;
+                    good.push(*id);
                 }
                 Err(e) => last = e,
             }
         }
-        match found {
-            Some(id) => {
-                used.insert(id);
-                assigned.insert(key.clone(), id);
+        ok.push(good);
+        lasts.push(last);
+    }
+    fn augment(k: usize, ok: &[Vec<usize>], owner: &mut BTreeMap<usize, usize>, seen: &mut BTreeSet<usize>) -> bool {
+        for id in &ok[k] {
+            if !seen.insert(*id) {
+                continue;
             }
-            None => return Err(format!("no within-word table set of the script describes the automaton expected there ({last})")),
+            let prev = owner.get(id).copied();
+            if prev.is_none() || augment(prev.unwrap(), ok, owner, seen) {
+                owner.insert(*id, k);
+                return true;
+            }
         }
+        false
+    }
+    let mut owner: BTreeMap<usize, usize> = BTreeMap::new();
+    for k in 0..keys.len() {
+        let mut seen = BTreeSet::new();
+        if !augment(k, &ok, &mut owner, &mut seen) {
+            let why = if ok[k].is_empty() { lasts[k].clone() } else { format!("table sets {:?} describe it, but each of them is needed for another automaton", ok[k]) };
+            return Err(format!("no within-word table set of the script describes the automaton expected there ({why})"));
+        }
+    }
+    let mut assigned: BTreeMap<String, usize> = BTreeMap::new();
+    for (id, k) in &owner {
+        assigned.insert(keys[*k].clone(), *id);
     }
     if s.subwords.len() != assigned.len() {
         return Err(format!("the script defines {} within-word table sets, the automaton uses {}", s.subwords.len(), assigned.len()));
